@@ -173,11 +173,13 @@ func (c *Conn) safeBufferPointer(pbody *[]byte) *[]byte {
 
 //go:norace
 func (c *Conn) handleDataFrame(opcode MessageType, fin bool, pbody *[]byte) {
+	// only a payload that came from the allocator is given back to it.
+	release := c.releasePayload && pbody != nil
 	pbody = c.safeBufferPointer(pbody)
 
 	h := c.dataFrameHandler
 	if c.isBlockingMod {
-		if c.releasePayload {
+		if release {
 			defer c.Engine.BodyAllocator.Free(pbody)
 		}
 		c.Engine.SyncCall(func() {
@@ -185,12 +187,12 @@ func (c *Conn) handleDataFrame(opcode MessageType, fin bool, pbody *[]byte) {
 		})
 	} else {
 		if !c.Execute(func() {
-			if c.releasePayload {
+			if release {
 				defer c.Engine.BodyAllocator.Free(pbody)
 			}
 			h(c, opcode, fin, pbody)
 		}) {
-			if c.releasePayload {
+			if release {
 				defer c.Engine.BodyAllocator.Free(pbody)
 			}
 		}
@@ -199,10 +201,12 @@ func (c *Conn) handleDataFrame(opcode MessageType, fin bool, pbody *[]byte) {
 
 //go:norace
 func (c *Conn) handleMessage(opcode MessageType, pbody *[]byte) {
+	// only a payload that came from the allocator is given back to it.
+	release := c.releasePayload && pbody != nil
 	pbody = c.safeBufferPointer(pbody)
 
 	if c.isBlockingMod {
-		if c.releasePayload {
+		if release {
 			defer c.Engine.BodyAllocator.Free(pbody)
 		}
 		c.Engine.SyncCall(func() {
@@ -210,12 +214,12 @@ func (c *Conn) handleMessage(opcode MessageType, pbody *[]byte) {
 		})
 	} else {
 		if !c.Execute(func() {
-			if c.releasePayload {
+			if release {
 				defer c.Engine.BodyAllocator.Free(pbody)
 			}
 			c.handleWsMessage(opcode, pbody)
 		}) {
-			if c.releasePayload {
+			if release {
 				defer c.Engine.BodyAllocator.Free(pbody)
 			}
 		}
